@@ -53,6 +53,22 @@ def execute(case):
         classes = domain.pair_classes(A, B, c.One)
         return {"pairs": [{"shape": "+".join(classes) or "D_ok", "determined": c.sizes.determined(A, B),
                            "label": f"{A} -> {B}", "ops": ops_on(m1 * A, m2 * B, B)}]}
+    if g == "scales":
+        # units with a zero point of their own (the temperature scales): pairs of equal dimension
+        # like any other; values are C10's subject, here only the -O differential and the
+        # exception types matter
+        c = convgen.ctx()
+        m = c.m
+        try:
+            sa, pa, sb, pb = case["a"], case["pa"], case["b"], case["pb"]
+            A = (c.snap.prefixes[pa] * m.Unit._by_name[sa]) if pa else m.Unit._by_name[sa]
+            B = (c.snap.prefixes[pb] * m.Unit._by_name[sb]) if pb else m.Unit._by_name[sb]
+            m1, m2 = convgen.mag_value(case["mag"]), convgen.mag_value(case["mag2"])
+        except Exception:
+            return {"invalid": True}
+        if A.dimension is not B.dimension or A.dimension is not m.Temperature:
+            return {"invalid": True}
+        return {"pairs": [{"shape": "scales", "determined": True, "label": f"{A} -> {B}", "ops": ops_on(m1 * A, m2 * B, B)}]}
     if g == "syn":
         from ..sizes import Sizes
 
